@@ -143,18 +143,33 @@ func isPseudo(v string) bool { return module.IsPseudoVersion(v) }
 // commit-hash style requests (whose own answers the statement does not define,
 // but which must not change what is served for stored versions afterwards).
 func checkDirectory(dir string, mods []modVer, st *stats) string {
-	if v := checkDirectoryOnce(dir, mods, st, false); v != "" {
+	if v := checkDirectoryOnce(dir, dir, mods, st, false); v != "" {
 		return v
 	}
-	if v := checkDirectoryOnce(dir, mods, nil, true); v != "" {
+	if v := checkDirectoryOnce(dir, dir, mods, nil, true); v != "" {
 		return "after commit-hash requests: " + v
+	}
+	// the same directory named in a way that is not lexically clean
+	n := len(mods)
+	for _, m := range mods {
+		n += len(m.Files)
+	}
+	spelled := []string{dir + "/", filepath.Dir(dir) + "/./" + filepath.Base(dir), dir + "/sub/..", filepath.Dir(dir) + "//" + filepath.Base(dir) + "/."}[n%4]
+	os.MkdirAll(filepath.Join(dir, "sub"), 0o777)
+	if v := checkDirectoryOnce(dir, spelled, mods, nil, false); v != "" {
+		return fmt.Sprintf("served as %q: %s", strings.Replace(spelled, filepath.Dir(dir), "<root>", 1), v)
 	}
 	return ""
 }
 
-func checkDirectoryOnce(dir string, mods []modVer, st *stats, hashFirst bool) string {
+// checkDirectoryOnce writes mods into dir and serves it under the name serveDir
+// (the same directory, possibly spelled differently).
+func checkDirectoryOnce(dir, serveDir string, mods []modVer, st *stats, hashFirst bool) string {
 	writeDir(dir, mods)
-	srv, err := goproxytest.NewUnstartedVerif(dir, func(string, ...any) {})
+	if serveDir != dir {
+		os.MkdirAll(filepath.Join(dir, "sub"), 0o777)
+	}
+	srv, err := goproxytest.NewUnstartedVerif(serveDir, func(string, ...any) {})
 	if err != nil {
 		return fmt.Sprintf("server does not start: %v", err)
 	}
@@ -576,7 +591,7 @@ func concScenarios(th bool) []scenario {
 
 func allModVers(th bool) []modVer {
 	paths := []string{"a.com/m", "a.com/Mixed/Case", "a.com/m/v2", "a.com/vault"}
-	verss := []string{"v1.0.0", "v1.2.3-pre.1", "v2.0.0+incompatible", "v2.0.0", "v0.0.0-20200101000000-abcdef123456"}
+	verss := []string{"v1.0.0", "v1.2.3-pre.1", "v2.0.0+incompatible", "v2.0.0", "v0.0.0-20200101000000-abcdef123456", "v1.1.0-rc-1", "v1.1.0-rc-1.0.20190301000000-dddddddddddd"}
 	files := []string{"go.mod", "x.go", "sub/y.go", ".hidden", "sub/.h", "sub/.d/z.go", ".d/w.go", "sub/ln.go"}
 	var out []modVer
 	for _, p := range paths {
@@ -804,7 +819,7 @@ func main() {
 	r.Set("not_stored_requests_404", st.notFound)
 	r.Set("directories_served_by_a_real_listening_server", real)
 	r.Set("exhaustive", !tot.Capped && !r.Capped())
-	r.Set("explanation", "(a) every single module version from 4 paths (plain, mixed case, /v2 suffix, element starting with v) x 5 versions (release, pre-release, +incompatible, invalid-for-path v2.0.0, pseudo) x 3 layouts x all 32 subsets of 5 files, and every pair of (path, version) with layouts and file sets varied systematically (thorough: triples); all stored .info/.mod/.zip, list per path, and a fixed menu of near-misses per stored version. (b) 9 scenarios of 2-3 concurrent first requests on a fresh server, every schedule with <= 5 preemptions (2 requests) / <= 3 (3 requests) (thorough 7 / 4) at the sync.Map/Mutex/atomic operations of par.Cache; each response must equal the one obtained alone; states = scheduling steps visited")
+	r.Set("explanation", "(a) every single module version from 4 paths (plain, mixed case, /v2 suffix, element starting with v) x 7 versions (release, pre-release, +incompatible, invalid-for-path v2.0.0, pseudo, a pre-release with a hyphen in its identifier and the pseudo-version derived from it) x 3 layouts x all 32 subsets of 5 files, and every pair of (path, version) with layouts and file sets varied systematically (thorough: triples); all stored .info/.mod/.zip, list per path, and a fixed menu of near-misses per stored version. (b) 9 scenarios of 2-3 concurrent first requests on a fresh server, every schedule with <= 5 preemptions (2 requests) / <= 3 (3 requests) (thorough 7 / 4) at the sync.Map/Mutex/atomic operations of par.Cache; each response must equal the one obtained alone; states = scheduling steps visited")
 	r.Assume("requests whose version part is all lower-case hex are resolved as commit hashes by the handler and are not generated as near-misses (the statement defines nothing for them); module paths containing '_' are not representable in the directory naming scheme and are not generated")
 	r.Finish()
 }
